@@ -186,8 +186,6 @@ def triggers(dtname, lex, ref):
     if dtname == "date" and ref["tz"] is not None: t.append("C09-date-timezone-dropped")
     if dtname in ("duration", "dayTimeDuration", "yearMonthDuration"):
         if (ref[1] * 1000000).denominator != 1: t.append("C09-fraction-beyond-microseconds")
-    if dtname == "yearMonthDuration" and ref == (0, 0): t.append("C09-zero-yearMonthDuration")
-    if dtname == "duration" and ref[0] < 0 and ref[1] < 0: t.append("C09-negative-mixed-duration")
     return t
 
 
@@ -213,8 +211,6 @@ def run_lex(case, st=None):
         rv, ri = raw.value, raw.ill_typed
         lv, li = L.value, L.ill_typed
     except Exception as ex:
-        if "C09-negative-mixed-duration" in trig:
-            return None
         return ("lex-raises", "Literal(%r, datatype=xsd:%s) raised %s: %s" % (lex, dtname, type(ex).__name__, ex))
     st["lex:" + dtname] = st.get("lex:" + dtname, 0) + 1
     representable = not any(t in trig for t in ("C09-year-out-of-python-range", "C09-24h"))
